@@ -6,6 +6,7 @@
 From Coq Require Import List ZArith Lia Bool.
 From RecordUpdate Require Import RecordSet.
 From Sim Require Import Map Variant Current Kernel Queue Net Pcap SimState Sim SockProofs.
+From Sim Require Import ReopenProofs.
 Import ListNotations.
 Local Open Scope Z_scope.
 
@@ -56,3 +57,29 @@ Theorem C12_repairs_in_place :
   d11b_drop_via_fwd current = true.
 Proof. repeat split; reflexivity. Qed.
 Print Assumptions C12_repairs_in_place.
+
+(* ---- a re-opened socket gets a fresh forwarder; the old one stays detached (Proofs/ReopenProofs.v) ---- *)
+Theorem C12_udp_close_detaches_for_good :
+  forall cx s w f, u_fwd (get_udp w s) = Some f ->
+  let w1 := fst (udp_close cx s w) in
+  mget SNone (w_sinks w1) f = SFwd None /\ w_next_sink w1 = w_next_sink w /\ u_fwd (get_udp w1 s) = None.
+Proof. exact udp_close_detaches_for_good. Qed.
+Print Assumptions C12_udp_close_detaches_for_good.
+
+Theorem C12_udp_reopen_gets_a_fresh_forwarder :
+  forall cx s v4 w f, u_fwd (get_udp w s) = Some f -> f < w_next_sink w ->
+  let w2 := fst (udp_open cx s v4 w) in
+  mget SNone (w_sinks w2) f = SFwd None /\
+  u_fwd (get_udp w2 s) = Some (w_next_sink w) /\
+  mget SNone (w_sinks w2) (w_next_sink w) = SFwd (Some (OUdp s)) /\
+  w_next_sink w <> f.
+Proof. exact udp_reopen_gets_a_fresh_forwarder. Qed.
+Print Assumptions C12_udp_reopen_gets_a_fresh_forwarder.
+
+Theorem C12_datagram_for_the_old_binding_vanishes_after_reopen :
+  forall cx s v4 w f v now fuel p,
+  u_fwd (get_udp w s) = Some f -> f < w_next_sink w -> p_hops p = [f] ->
+  let w2 := fst (udp_open cx s v4 w) in
+  forward v (S fuel) now p w2 = (w2, []).
+Proof. exact stale_datagram_vanishes_after_reopen. Qed.
+Print Assumptions C12_datagram_for_the_old_binding_vanishes_after_reopen.
